@@ -69,6 +69,9 @@ def universe():
     add('const2', '2*u*v*dx', 'constant')
     add('const3', '3*u*v*dx', 'constant')
     add('const2.5', '2.5*u*v*dx', 'constant')
+    add('const-1', '(-1)*u*v*dx', 'constant')      # CPython: hash(-1.0) == hash(-2.0)
+    add('const-2', '(-2)*u*v*dx', 'constant')
+    add('const-0.5', '(-0.5)*u*v*dx', 'constant')
     add('op-plus', '(u*v + Dx(u,0)*v)*dx', 'operator')
     add('op-minus', '(u*v - Dx(u,0)*v)*dx', 'operator')
     add('op-mul', 'c*u*v*dx', 'operator', args=C)
